@@ -15,7 +15,7 @@ RULE = ("BFS over histories of {callback(fresh value), errback(exception instanc
         "raised by the call (AlreadyCalledError or none), canceller call counts, observer invocations with "
         "their inputs, and each Deferred's result.  non-trivial = distinct canonical states after a cancel, a "
         "late (second) result, or while a Deferred was waiting on another")
-BOUNDS = {"quick": "25 canceller configurations, <=3 Deferreds, <=2 pending callbacks per Deferred, depth 8",
+BOUNDS = {"quick": "25 canceller configurations with a plain inner Deferred + 10 each with a user-subclass inner and a DeferredList([d]) inner, <=3 Deferreds, <=2 pending callbacks per Deferred, depth 8",
           "thorough": "25 canceller configurations, <=4 Deferreds, <=2 pending callbacks per Deferred, depth 10"}
 ASSUMPTIONS = [
     "raising canceller: the statement is silent about the outcome; judged only (i) every cancel() that reaches "
@@ -30,7 +30,7 @@ ASSUMPTIONS = [
     "_suppressAlreadyCalled, canceller present) of the real object plus the reference state; tokens are fresh "
     "and verified equal in that state, so they are dropped",
 ]
-MIN = {"quick": {"states": 12000, "nontrivial": 11000, "outcomes": 18, "transitions": 175000},
+MIN = {"quick": {"states": 18000, "nontrivial": 17000, "outcomes": 20, "transitions": 265000},
        "thorough": {"states": 250000, "nontrivial": 240000, "outcomes": 13, "transitions": 3000000}}
 LEVEL_TEXT = ("every history within the bound is executed on real Deferreds and compared after each call with a "
               "reference state machine of the documented one-result / cancellation rules")
@@ -50,10 +50,11 @@ class CancellerBoom(Exception):
 
 
 class MD:
-    __slots__ = ("kind", "fired", "result", "wait", "pending", "swallow", "ccount")
+    __slots__ = ("kind", "fired", "result", "wait", "pending", "swallow", "ccount", "link")
 
-    def __init__(self, kind):
-        self.kind = kind
+    def __init__(self, kind, link=None):
+        self.kind = kind        # canceller kind, or "dl": a DeferredList([d_link]) (its cancel() cancels d_link)
+        self.link = link
         self.fired = False
         self.result = None      # ("ok", tok) | ("fail", tok) | ("def", j)
         self.wait = None
@@ -75,10 +76,24 @@ def _quiet():
             pass
 
 
+_sub = []
+
+
+def _subclass():
+    if not _sub:
+        from twisted.internet.defer import Deferred
+
+        class SubDeferred(Deferred):
+            pass
+        _sub.append(SubDeferred)
+    return _sub[0]
+
+
 class St:
-    def __init__(self, k0, k1, tier="quick"):
+    def __init__(self, k0, k1, tier="quick", shape="plain"):
         _quiet()
         self.k0, self.k1 = k0, k1
+        self.shape = shape      # what the inner Deferred returned by a callback is: plain / sub / dlist
         self.maxd, self.maxpending = TIER[tier]["maxd"], TIER[tier]["maxpending"]
         self.d = []
         self.m = []
@@ -95,8 +110,27 @@ class St:
         self.cancel_hit_unfired = False
         self.new(k0)
 
-    def new(self, kind):
+    def new_inner(self):
+        """-> index of the Deferred a callback will return"""
+        if self.shape == "sub":
+            return self.new(self.k1, _subclass())
+        if self.shape == "dlist":
+            from twisted.internet.defer import DeferredList
+            j = len(self.d)
+            self.rcount.append(0)
+            self.d.append(None)
+            self.m.append(MD("dl", j + 1))
+            x = self.new(self.k1)
+            dl = DeferredList([self.d[x]])
+            self.d[j] = dl
+            self.ids[id(dl)] = j
+            self.m[x].pending.append(("dl", None, j))
+            return j
+        return self.new(self.k1)
+
+    def new(self, kind, cls=None):
         from twisted.internet.defer import Deferred
+        cls = cls or Deferred
         j = len(self.d)
         self.rcount.append(0)
 
@@ -111,7 +145,7 @@ class St:
             elif kind == "raise":
                 raise CancellerBoom()
 
-        d = Deferred(None if kind == "none" else canceller)
+        d = cls(None if kind == "none" else canceller)
         self.d.append(d)
         self.ids[id(d)] = j
         self.m.append(MD(kind))
@@ -132,6 +166,9 @@ def classify(st, r):
         return ("fail", "?" + type(v).__name__)
     if isinstance(r, Deferred):
         return ("def", st.ids.get(id(r), -1))
+    if isinstance(r, list) and len(r) == 1 and isinstance(r[0], tuple) and len(r[0]) == 2:
+        inner = classify(st, r[0][1])       # DeferredList result [(success, value)]
+        return ("ok", ("dl", bool(r[0][0]), inner[1] if inner and inner[0] != "def" else inner))
     return ("ok", r)
 
 
@@ -148,6 +185,11 @@ def m_run(st, i):
             W.wait = None
             st.flags.add("waiter-resumed-" + W.result[0])
             m_run(st, e[1])
+            continue
+        if e[0] == "dl":
+            # DeferredList's own callback on its member: the list fires, the member's result passes through
+            st.flags.add("deferredlist-fired-" + D.result[0])
+            m_fire(st, e[2], ("ok", ("dl", D.result[0] == "ok", D.result[1])))
             continue
         st.mlog.append((i, e[1], D.result))
         if e[0] == "inner":
@@ -183,6 +225,9 @@ def m_fire(st, i, res):
 
 def m_cancel(st, i):
     D = st.m[i]
+    if not D.fired and D.kind == "dl":
+        st.flags.add("cancel-deferredlist")
+        return m_cancel(st, D.link)
     if not D.fired:
         st.flags.add("cancel-unfired-" + D.kind)
         if D.kind == "none":
@@ -262,8 +307,13 @@ def apply(st, ev):
         call = lambda: _fire_real(d, op, tok)
     elif op == "cancel":
         target = i
-        while st.m[target].fired and st.m[target].wait is not None:
-            target = st.m[target].wait
+        while True:
+            if st.m[target].fired and st.m[target].wait is not None:
+                target = st.m[target].wait
+            elif not st.m[target].fired and st.m[target].kind == "dl":
+                target = st.m[target].link
+            else:
+                break
         before = (target, [(x.called, len(getattr(x, "callbacks", ()))) for x in st.d])
         st.cancel_hit_unfired = not st.m[target].fired
         expect = m_cancel(st, i)
@@ -278,7 +328,7 @@ def apply(st, ev):
     elif op == "inner":
         cid = st.ncid
         st.ncid += 1
-        j = st.new(st.k1)
+        j = st.new_inner()
         M.pending.append(("inner", cid, j))
         if M.fired:
             m_run(st, i)
@@ -339,6 +389,8 @@ def _real_cancel_target(st, i):
         r = getattr(d, "result", NO)
         if getattr(d, "called", False) and isinstance(r, Deferred) and id(r) in st.ids:
             i = st.ids[id(r)]
+        elif not getattr(d, "called", False) and st.m[i].kind == "dl":
+            i = st.m[i].link
         else:
             break
     return i
@@ -392,17 +444,20 @@ def enabled(st):
     if st.open:
         evs = []
         for i in range(len(st.d)):
-            evs += [(f, i) for f in FIRE_OPS] + [("cancel", i)]
+            if st.m[i].kind != "dl":
+                evs += [(f, i) for f in FIRE_OPS]
+            evs.append(("cancel", i))
         return evs
     evs = []
     for i in range(len(st.d)):
-        evs.extend((f, i) for f in FIRE_OPS)
+        if st.m[i].kind != "dl":        # a DeferredList is fired by its member only
+            evs.extend((f, i) for f in FIRE_OPS)
         evs.append(("cancel", i))
         np_ = sum(1 for e in st.m[i].pending if e[0] != "cont")
         runs_now = st.m[i].fired and st.m[i].wait is None
         if runs_now or np_ < st.maxpending:
             evs.append(("obs", i))
-            if len(st.d) < st.maxd:
+            if len(st.d) + (2 if st.shape == "dlist" else 1) <= st.maxd:
                 evs.append(("inner", i))
     return evs
 
@@ -490,7 +545,7 @@ def canon(st):
                 parts.append("C%d" % j)
         mr = M.result
         mrs = "d%d" % mr[1] if mr is not None and mr[0] == "def" else _cls(mr)
-        mp = ",".join("C%d" % e[1] if e[0] == "cont" else e[0][0] + (str(e[2]) if e[0] == "inner" else "")
+        mp = ",".join("C%d" % e[1] if e[0] == "cont" else e[0][0] + (str(e[2]) if e[0] in ("inner", "dl") else "")
                       for e in M.pending)
         rows.append("%d.%s.%s.%d.%d|%d.%s.%s.%d" % (
             d.called, rcs, ",".join(parts), bool(getattr(d, "_suppressAlreadyCalled", False)),
@@ -506,15 +561,21 @@ def canon(st):
 
 # ---------------------------------------------------------------- driver
 
+SHAPES = ["plain", "sub", "dlist"]
+
+
 def shards(tier, seed):
-    return [[a, b] for a in KINDS for b in KINDS]
+    out = [[a, b, "plain"] for a in KINDS for b in KINDS]
+    # the shape of the returned inner Deferred matters to forwarding, which depends on the inner canceller
+    out += [[a, b, sh] for sh in SHAPES[1:] for a in ("none", "noop") for b in KINDS]
+    return out
 
 
 def run_shard(shard, tier, seed):
-    k0, k1 = shard
+    k0, k1, shape = shard
     depth = TIER[tier]["depth"]
     stats = Stats()
-    extra = {"config": [k0, k1], "tier": tier}
+    extra = {"config": [k0, k1, shape], "tier": tier}
 
     def inv(st, hist):
         for f in st.flags:
@@ -527,18 +588,19 @@ def run_shard(shard, tier, seed):
     def on_state(st, hist):
         nt = st.flags - {"waiter-resumed-ok", "waiter-resumed-fail", "inner-already-fired"}
         if nt:
-            stats.nt((k0, k1, canon(st)))
+            stats.nt((k0, k1, shape, canon(st)))
 
-    res = bfs(lambda: St(k0, k1, tier), apply, enabled, canon, inv, depth, on_state=on_state)
+    res = bfs(lambda: St(k0, k1, tier, shape), apply, enabled, canon, inv, depth, on_state=on_state)
     res.violations = []
     stats.add_bfs(res, extra)
-    stats.samples = [{"config": [k0, k1], "history": h} for h in res.samples[:1]]
+    stats.samples = [{"config": [k0, k1, shape], "history": h} for h in res.samples[:1]]
     return stats
 
 
 def replay(w):
-    k0, k1 = w["config"]
-    st = St(k0, k1, w.get("tier", "quick"))
+    k0, k1 = w["config"][:2]
+    shape = w["config"][2] if len(w["config"]) > 2 else "plain"
+    st = St(k0, k1, w.get("tier", "quick"), shape)
     for ev in w["history"]:
         apply(st, tuple(ev))
         bad = invariant(st, None)
